@@ -1,7 +1,7 @@
 """C02 -- all reports of a terminated process's outcome agree and waiters are released."""
 import itertools
 
-from pv import judges, lifecycle, plans, programs
+from pv import judges, lifecycle, plans, programs, suiterun
 
 ID = 'C02'
 TITLE = 'outcome views agree / waiters released'
@@ -14,7 +14,7 @@ RULE = ('programs (ending by value / Stop / UnsuccessfulResult / Kill command / 
         'step functions; distinct by (program, plan); non-trivial when the process terminated')
 ASSUMPTIONS = ['expected outcome is computed from the program text and the request log, not read back from the process',
                'hooks do not raise (C03 owns that)']
-REQUIRED = ['terminated', 'final/finished', 'final/excepted', 'final/killed', 'kill_while_paused', 'kill_in_step', 'kill_from_listener',
+REQUIRED = ['suite_audits', 'terminated', 'final/finished', 'final/excepted', 'final/killed', 'kill_while_paused', 'kill_in_step', 'kill_from_listener',
             'unsuccessful_by_outputs', 'raising_listener_runs', 'listener_twice_runs']
 ALPHABET = [['pause', 'p'], ['play'], ['kill', 'k'], ['resume', ['v']], ['fail', 'falsy-f'], ['soon_raise', 'c']]  # (fail: with an exception instance that is falsy)
 BOUNDS = {'quick': 'basic program family (+required-output variants), K<=2 exhaustive', 'thorough': 'K=3 exhaustive on 4 key programs, + 40 random programs, K=3 sampled'}
@@ -24,6 +24,12 @@ DEEP = ('wait_async', 'cont_async', 'out_async', 'wait2')  # thorough: K=3 exhau
 
 
 def gen_cases(tier, seed):
+    yield {'kind': 'suite', 'name': 'repository-suite', 'plan': []}
+    for c in _gen_cases(tier, seed):
+        yield c
+
+
+def _gen_cases(tier, seed):
     progs = {k: (v, False) for k, v in programs.basic_programs().items()}
     progs.update({k: (v, False) for k, v in programs.awkward_programs().items()})
     S = programs.step
@@ -67,7 +73,31 @@ def gen_cases(tier, seed):
                           'barrage': False, 'listener': True, 'req_output': req}
 
 
+def run_suite(case):
+    """The repository's own test suite under pv/suitemon.py: every process that terminated during a test is audited at the end of
+    that test -- do state, future, exception(), killed() agree?"""
+    r = suiterun.run()
+    obs = {'terminated': 0, 'final': {}, 'kill_while_paused': 0, 'kill_in_step': 0, 'kill_from_listener': 0, 'unsuccessful_by_outputs': 0, 'views_compared': 0,
+           'suite_runs': 1, 'suite_audits': 0, 'suite_audits_by_state': {}}
+    if 'error' in r:
+        return {'viol': [], 'obs': obs, 'inconclusive': r['error'], 'key': ['suite'], 'nontrivial': False}
+    viol = []
+    V = judges.V
+    for rec in r['records']:
+        if rec['kind'] != 'audit':
+            continue
+        obs['suite_audits'] += 1
+        st = rec['views']['state']
+        obs['suite_audits_by_state'][st] = obs['suite_audits_by_state'].get(st, 0) + 1
+        for problem in rec['problems']:
+            viol.append(V('suite-views-disagree', 'suite-views-disagree:%s:%s' % (st, problem.split(' but ')[0][:40]), 'in %s a %s: %s' % (rec['test'], rec['cls'], problem)))
+    return {'viol': judges._dedupe(viol), 'obs': obs, 'inconclusive': None, 'key': ['suite'], 'nontrivial': True,
+            'sample': {'workload': 'repository test suite under pv.suitemon', 'pytest': r['tail'], 'audits': obs['suite_audits']}}
+
+
 def run_case(case):
+    if case.get('kind') == 'suite':
+        return run_suite(case)
     rec = lifecycle.run_case(case)
     viol = judges.judge_c02(rec)
     fin = rec['final']
